@@ -170,6 +170,54 @@ def run(ctx):
                                  observed=out[0] if out[0] != "ok" else "a different tree",
                                  cls="chain", sig=["chain", op, right])
             ctx.cls("chain:%s:%d" % (op, n_operands))
+    # ---- operator pairs around BIG operands -------------------------------------------
+    # every 2-operator tree that contains `in`, its list replaced by long homogeneous
+    # literal lists; and every 2-operator tree with one leaf replaced by a long literal.
+    # Grouping must not depend on the size or spelling class of an operand.
+    def big_list(kind, n):
+        if kind == "int":
+            return T.lst(*[T.I(i) for i in range(n)])
+        if kind == "signed":
+            return T.lst(*[T.lit("int", ("-%d" if i % 2 else "+%d") % i) for i in range(n)])
+        if kind == "str":
+            return T.lst(*[T.S("k%d" % i) for i in range(n)])
+        return T.lst(*[T.lit("float", "%d.5" % i) for i in range(n)])
+    big_leaves = [T.lit("int", "1" * 40), T.S("x" * 3000), T.ident("n" * 128),
+                  T.lit("float", "0." + "3" * 60)]
+    list_lengths = ctx.pick([31, 32, 33, 100], [31, 32, 33, 64, 100, 255, 256, 1000, 1024, 4097])
+    j = 0
+    for shape in shapes(2):
+        for t in assign(shape):
+            has_in = any(x[0] == "cmp" and x[1] == "in" for x in T.walk(t))
+            variants = []
+            if has_in:
+                for kind in ("int", "signed", "str", "float"):
+                    for n_items in list_lengths:
+                        lst = big_list(kind, n_items)
+                        variants.append(("list:%s:%d" % (kind, n_items),
+                                         T.map_term(lambda x: lst if x[0] == "list" else x, t)))
+            for bi, leaf in enumerate(big_leaves):
+                for target in ("v1", "v2"):
+                    variants.append(("leaf:%d" % bi, T.map_term(
+                        lambda x: leaf if x == T.ident(target) else x, t)))
+            for vname, tv in variants:
+                j += 1
+                if not ctx.mine(j):
+                    continue
+                for mode in ("min", "full"):
+                    ctx.count("evaluations")
+                    text = to_text(tv, mode)
+                    out = drive.parse_term(text)
+                    ctx.seen(["big", vname, j, mode])
+                    if not (out[0] == "ok" and out[1] == norm_for_parse(tv)):
+                        small = to_text(t, mode)
+                        ctx.fail({"variant": vname, "mode": mode, "small_text": small,
+                                  "text_head": text[:160], "term_small": t},
+                                 "grouping changes when an operand is large",
+                                 expected="the tree of %r with the operand substituted" % small,
+                                 observed=out[0] if out[0] != "ok" else "a different tree",
+                                 cls="big-operand", sig=["big", vname.split(":")[0], mode])
+                ctx.cls("big:" + vname.split(":")[0])
     # ---- random part ----------------------------------------------------------------
     rng = ctx.rng("rand")
     o = fullgen.Opts()
